@@ -252,11 +252,26 @@ theorem refused_head_fails_stream (s : Streams) (k : Nat) (h : HeadersIn) (i : N
   refused_head_fails s k h i reason init hrh hr
 
 /-- … and `Recv::recv_headers` refuses in no other way: a connection error PROTOCOL_ERROR (the frame does
-    not fit the stream's state) or a stream error PROTOCOL_ERROR. -/
+    not fit the stream's state), a stream error PROTOCOL_ERROR, or a stream error REFUSED_STREAM. -/
 theorem head_refusals_are_protocol_errors (s : Streams) (k : Nat) (h : HeadersIn) (e : PErr)
     (hr : (s.recvRecvHeaders k h).2 = .state e) :
-    e = PErr.libraryGoAway Conn.PROTOCOL_ERROR ∨ ∃ i, e = PErr.libraryReset i Conn.PROTOCOL_ERROR :=
+    e = PErr.libraryGoAway Conn.PROTOCOL_ERROR ∨ (∃ i, e = PErr.libraryReset i Conn.PROTOCOL_ERROR) ∨
+    (∃ i, e = PErr.libraryReset i REFUSED_STREAM) :=
   recvRecvHeaders_refusals s k h e hr
+
+/-- REFUSED_STREAM is not about the message: it is answered only when the receive-stream limit has been
+    reached while the (promised) stream was merely reserved (`rhRefuse`, decided before the head is looked
+    at; repair of the peer-triggerable panic F31) — so every refusal of a MALFORMED head is
+    PROTOCOL_ERROR. -/
+theorem refused_stream_only_for_the_concurrency_limit (s : Streams) (k : Nat) (h : HeadersIn) (i : Nat)
+    (hr : (s.recvRecvHeaders k h).2 = .state (PErr.libraryReset i REFUSED_STREAM)) :
+    ∃ st' ini, (s.stream k).state.recvOpen h.eos h.isInformational = (st', .ok ini) ∧ rhRefuse s k st' ini = true :=
+  recvRecvHeaders_refused_stream s k h i hr
+
+/-- reachable: one pushed stream allowed, two promised, the response on the first takes the slot, the
+    response on the second is refused with REFUSED_STREAM -/
+example : ((hdrOf rd0 (respFrame 4)).map fun h => stateErrOf (cliLim3.streams.recvRecvHeaders 2 h).2) =
+    some (some (.reset 4 REFUSED_STREAM .library)) := refused_stream_witness.1
 
 /-- hypotheses met, conclusion visible: a request head carrying `:status` is refused that way; afterwards
     the stream is reset, RST_STREAM(PROTOCOL_ERROR) is queued and nothing was handed over -/
@@ -507,6 +522,7 @@ end H2V.Props.C13
 #print axioms H2V.Props.C13.recv_data_hands_over_only_its_payload
 #print axioms H2V.Props.C13.refused_head_fails_stream
 #print axioms H2V.Props.C13.head_refusals_are_protocol_errors
+#print axioms H2V.Props.C13.refused_stream_only_for_the_concurrency_limit
 #print axioms H2V.Props.C13.refused_trailers_fail_stream
 #print axioms H2V.Props.C13.data_violating_content_length_is_refused
 #print axioms H2V.Props.C13.refused_data_fails_stream
